@@ -43,6 +43,24 @@ theorem retried_transient (f : Option (Nat × Err)) (fs : List (Option (Nat × E
   unfold run
   simp [runFrom, h, hr]
 
+/-- The number of retries is unbounded: however many consecutive attempts fail with a retryable error (each leaves the database as
+it found it, `attempt_err`), the wrapper keeps going and the outcome is that of the next attempt, reached after exactly that many
+retries. -/
+theorem retries_unbounded (fs rest : List (Option (Nat × Err)))
+    (h : ∀ f ∈ fs, ∃ e, attempt step db body f = (db, some e) ∧ retryable e = true) :
+    run step db body (fs ++ rest) = runFrom step fs.length db body rest := by
+  unfold run
+  suffices hs : ∀ n, runFrom step n db body (fs ++ rest) = runFrom step (n + fs.length) db body rest by simpa using hs 0
+  induction fs with
+  | nil => intro n; simp
+  | cons f fs ih =>
+    intro n
+    obtain ⟨e, he, hr⟩ := h f (List.mem_cons_self ..)
+    simp only [List.cons_append, runFrom, he, hr, if_true, List.length_cons]
+    rw [ih (fun g hg => h g (List.mem_cons_of_mem _ hg)) (n + 1)]
+    congr 1
+    omega
+
 /-- Any other failure is re-raised at once: one attempt, the error of that attempt, the database untouched. -/
 theorem gives_up_on_other (f : Option (Nat × Err)) (fs : List (Option (Nat × Err))) (e : Err) (db' : σ)
     (h : attempt step db body f = (db', some e)) (hr : retryable e = false) :
@@ -163,6 +181,10 @@ open KV in
 -- a 5-row execute_many is one statement of one transaction: a deadlock at its COMMIT retries the whole call, every row applied once
 example : run KV.step [(1, 1)] [(false, .nop), (false, .nop), (true, .upsertMany 1 2 5)] [some (3, ⟨.operational, 1213⟩)]
     = ⟨[(1, 7), (2, 4)], none, 2⟩ := by decide
+open KV in
+-- twelve consecutive deadlocks at the same statement, then a clean attempt: 13 attempts, the write applied once
+example : run KV.step [(1, 5)] [(false, .nop), (false, .nop), (true, .update 1 10)] (List.replicate 12 (some (2, ⟨.operational, 1213⟩)))
+    = ⟨[(1, 15)], none, 13⟩ := by decide
 example : pymysqlClass 1205 = .operational ∧ pymysqlClass 1213 = .operational ∧ pymysqlClass 2013 = .operational := by decide
 
 end HailVerif.C27
